@@ -143,7 +143,7 @@ func NewSnapshotEngine(options ...func(engine *Engine)) *Engine {
 			}()
 			for {
 				<-ticker.C
-				if engine.changeCount.Load() == engine.snapshotThreshold {
+				if engine.changeCount.Load() >= engine.snapshotThreshold {
 					if err := engine.TakeSnapshot(); err != nil {
 						log.Println(err)
 					}
